@@ -860,7 +860,13 @@ impl Engine for ChunkSim {
                 return;
             }
         };
-        let ref_handle = match catch(|| reference_ctx.get_mut().op(&def)) {
+        // The two must not share grid objects through the process-wide cache either:
+        // the reference loads its own copies from disk, and later operators (noise)
+        // get third copies.
+        Plain::verif_reset_grids();
+        let ref_made = catch(|| reference_ctx.get_mut().op(&def));
+        Plain::verif_reset_grids();
+        let ref_handle = match ref_made {
             Ok(r) => r,
             Err(panic) => {
                 rec.violate("I-pan", &format!("op() panics in a second fresh context only: {}", panic), panic.clone());
